@@ -42,7 +42,8 @@ RULE = ("Every formula over atoms a,b built from always/eventually/next/until/im
         "block finishing, or its parent terminating.  One case = one (formula, variant, placement, "
         "k, end mode) with its set of traces.  Non-trivial = the formula contains a temporal "
         "operator and for some trace of the case flipping the atoms of the first or of the last "
-        "step changes the oracle verdict.  Distinct = SHA-1 of the case.")
+        "step changes the oracle verdict.  A separate slice lets the atoms return non-Boolean "
+        "truthy/falsy values (1, 2, 'x', 0, None, '').  Distinct = SHA-1 of the case.")
 ASSUMPTIONS = [
     "the current step is Simulation.currentTime of the running simulation (vf.tablesim.T reads it "
     "from scenic.syntax.veneer.currentSimulation, as `simulation().currentTime` does)",
@@ -422,6 +423,33 @@ def b4_run(f, tr, defect):
     return (True, None)
 
 
+def bitwise_verdict(f, values):
+    """Defect model of propositions.And/Or.evaluate (reduce with the *bitwise* operators & and |,
+    starting from True / False) on the raw atom values of one step: 'accept' / 'reject' /
+    'TypeError'."""
+    import operator
+
+    def ev(g):
+        k = kind(g)
+        if is_atom(g):
+            return values[k]
+        if k == "not":
+            return not ev(g[1])
+        if k == "and":
+            return operator.and_(operator.and_(True, ev(g[1])), ev(g[2]))
+        if k == "or":
+            return operator.or_(operator.or_(False, ev(g[1])), ev(g[2]))
+        if k == "implies":
+            return (not ev(g[1])) or ev(g[2])
+        raise ValueError(k)
+
+    try:
+        return "accept" if ev(f) else "reject"
+    except TypeError:
+        return "TypeError"
+
+
+
 _HAND = [
     # formula, trace (bit0 = a, bit1 = b), expected
     (["a"], [1], True), (["a"], [0], False), (["a"], [0, 1], False), (["b"], [2, 0], True),
@@ -528,7 +556,7 @@ def selfcheck():
 # Programs
 # ----------------------------------------------------------------------------------------------
 
-HEAD = "from vf.tablesim import T, LOG\n"
+HEAD = "from vf.tablesim import T, V, LOG\n"
 
 PROGRAMS = {
     "top": HEAD + '''ego = new Object
@@ -583,24 +611,36 @@ END_MODES = {
 }
 
 
-def program(place, f, variant, ego=True):
+def program(place, f, variant, ego=True, vals=None):
     """`ego=False` leaves the scenario without any object: creating the dynamic proxy of an object
-    is 85 % of the cost of a short simulation and has nothing to do with the requirement."""
-    src = PROGRAMS[place].replace("{F}", PRINTERS[variant](f))
+    is 85 % of the cost of a short simulation and has nothing to do with the requirement.
+    `vals` (non-Boolean slice): the atoms return raw table cells (`V`) instead of Booleans."""
+    text = PRINTERS[variant](f)
+    if vals:
+        text = text.replace('T("', 'V("')
+    src = PROGRAMS[place].replace("{F}", text)
     if not ego:
         assert src.count("ego = new Object\n") == 1
         src = src.replace("        ego = new Object\n", "").replace("ego = new Object\n", "")
     return src
 
 
-def build_table(tr, k, end, natoms):
+def cell_value(vals, atom, bit):
+    """Cell of an atom: 0/1, or in the non-Boolean slice the atom's truthy / falsy value."""
+    if not vals:
+        return bit
+    return vals[atom][0] if bit else vals[atom][1]
+
+
+def build_table(tr, k, end, natoms, vals=None):
     """Table for a trace occupying steps k..e; returns (table, maxSteps, e)."""
     n = len(tr)
     e = k + n - 1
     width = e + 5
     full = (1 << natoms) - 1
     cells = [tr[0] ^ full] * k + list(tr) + [tr[-1] ^ full] * (width - e - 1)
-    table = {ATOMS[i]: [c >> i & 1 for c in cells] for i in range(natoms)}
+    table = {ATOMS[i]: [cell_value(vals, ATOMS[i], c >> i & 1) for c in cells]
+             for i in range(natoms)}
     after = lambda t: [0] * t + [1] * (width - t)  # noqa: E731
     zeros = [0] * width
     table["go"] = after(k)
@@ -707,7 +747,24 @@ def judge(case, collect=None):
     out.cls("place:" + place, "variant:" + variant, "end:" + end, "class:" + fc,
             "depth:%d" % depth_of(f))
     cell = f"{fc}:{place}"
-    src = program(place, f, variant, case.get("ego", True))
+    vals = case.get("vals")
+    src = program(place, f, variant, case.get("ego", True), vals)
+    if vals:
+        out.cls("atoms:non-boolean")
+        if any(v[1] is None for v in vals.values()):
+            out.cls("atoms:None-as-false")
+
+    def exc_sig(ex, default_cell):
+        """Signature of a crash; the non-Boolean slice has its own cells (own root causes)."""
+        sig = core.exc_signature(ex)
+        if not vals:
+            return None
+        if isinstance(ex, IndexError) and any(v[1] is None for v in vals.values()):
+            return "nonbool-atoms:None|" + sig
+        if isinstance(ex, TypeError) and not temporal and place != "top":
+            return "nonbool-atoms:runtime-and-or|" + sig
+        return f"nonbool-atoms:{default_cell}|{sig}"
+
     out.cls("objects:1" if case.get("ego", True) else "objects:0")
     fatoms = atoms_of(f)
     failed = set()
@@ -755,7 +812,8 @@ def judge(case, collect=None):
     wcache = {}
     if place == "top":
         for v in range(full + 1):
-            ts.set_table({ATOMS[i]: [v >> i & 1] for i in range(natoms)})
+            ts.set_table({ATOMS[i]: [cell_value(vals, ATOMS[i], v >> i & 1)]
+                          for i in range(natoms)})
             try:
                 s, _ = sc.generate(maxIterations=1, verbosity=0)
                 gen_ok[v] = True
@@ -763,7 +821,9 @@ def judge(case, collect=None):
                     scene = s
             except Exception as e:
                 if not is_rejection(e):
-                    fail(f"{cell}|generate:" + core.exc_signature(e), error=repr(e)[:300])
+                    fail(exc_sig(e, "generate:" + place) or
+                         f"{cell}|generate:" + core.exc_signature(e), error=repr(e)[:300],
+                         step0=v)
                     return out
                 gen_ok[v] = False
             bad = [r for r in ts.STATE.reads if r[0] != "gen" or r[2] != 0 or r[1] not in fatoms]
@@ -783,13 +843,14 @@ def judge(case, collect=None):
         # a step-0 valuation exactly when a run that starts like this is rejected in step 0
         if scene is not None and end in END_MODES["top"]:
             for v in range(full + 1):
-                table, max_steps, _e = build_table([v, v], 0, end, natoms)
+                table, max_steps, _e = build_table([v, v], 0, end, natoms, vals)
                 try:
                     r = ts.run(scene, table, max_steps)
                 except ts.TableError as ex:
                     raise core.HarnessError(f"{ex}\n{src}")
                 except Exception as ex:
-                    fail(f"{cell}|" + core.exc_signature(ex), tr=[v, v], error=repr(ex)[:300])
+                    fail(exc_sig(ex, place) or f"{cell}|" + core.exc_signature(ex), tr=[v, v],
+                         error=repr(ex)[:300])
                     break
                 at0 = (not r.accepted) and r.rejected_at == 0
                 if at0 != (not gen_ok[v]):
@@ -830,14 +891,16 @@ def judge(case, collect=None):
             continue
         if scene is None:
             continue
-        table, max_steps, e = build_table(tr, k, tr_end, natoms)
+        table, max_steps, e = build_table(tr, k, tr_end, natoms, vals)
         try:
             r = ts.run(scene, table, max_steps)
         except ts.TableError as ex:
             raise core.HarnessError(f"{ex}\n{src}\n{table}")
         except Exception as ex:
             sig = core.exc_signature(ex)
-            if place.startswith("dyn") and temporal:
+            if vals:
+                fail(exc_sig(ex, place), tr=tr, error=repr(ex)[:300])
+            elif place.startswith("dyn") and temporal:
                 fail(f"dynamic-require:{place}|{sig}", tr=tr, error=repr(ex)[:300])
             elif (not temporal) and any(kind(g) == "implies" for g in subformulas(f)):
                 fail(f"nontemporal-implies:runtime|{sig}", tr=tr, error=repr(ex)[:300])
@@ -892,7 +955,18 @@ def judge(case, collect=None):
         detail = dict(oracle=truth, accepted=accepted, rejected_at_position=rej, k=k, end=tr_end,
                       problems=problems)
         # attribution through defect models: only an exact prediction attributes
-        if place.startswith("dyn") and temporal and accepted and not cells:
+        if vals and not temporal and place != "top" and bitwise_verdict(
+                f, {x: cell_value(vals, x, tr[0] >> ATOMS.index(x) & 1) for x in fatoms}) == \
+                ("accept" if accepted else "reject"):
+            fail("nonbool-atoms:runtime-and-or|as-bitwise-and-or", tr=tr, **detail)
+        elif vals and any(vals[x][1] is None and not (t >> ATOMS.index(x) & 1)
+                          for x in fatoms for t in tr):
+            # an atom returned None somewhere in the window: rv_ltl drops it from the atom's
+            # history, the later values shift by one position (or the next read crashes)
+            fail(f"nonbool-atoms:None|{problems[0]}", tr=tr, **detail)
+        elif vals:
+            fail(f"nonbool-atoms:{cell}|{problems[0]}", tr=tr, **detail)
+        elif place.startswith("dyn") and temporal and accepted and not cells:
             fail(f"dynamic-require:{place}|temporal-require-never-monitored", tr=tr, **detail)
             ignored += 1
             if ignored >= 3:
@@ -955,6 +1029,19 @@ def build_cases(tier, seed):
                           "place": place, "k": k, "end": rng.choice(END_MODES[place]),
                           "natoms": 2, "lens": [1, 2, 3] if quick else [1, 2, 3, 4],
                           "ego": rng.random() < 0.5})
+    # F. non-Boolean atoms: every atom returns a truthy / falsy Python value (1, 2, 'x', 0, None,
+    # ''); the oracle uses their truth values
+    truthy, falsy = [1, 2, "x", 3, True], [0, None, "", None, False]
+    pool = [g for g in fs if not has_temporal(g) and depth_of(g) >= 1]
+    for i in range(500 if quick else 4000):
+        f = rng.choice(pool) if i % 3 == 0 else rng.choice(fs)
+        place = rng.choice(["top", "setup", "setup", "dyn-sub", "dyn-top"])
+        vals = {x: [rng.choice(truthy), rng.choice(falsy)] for x in ("a", "b")}
+        if i % 5 == 0:
+            vals = {"a": [1, 0], "b": [2, rng.choice(falsy)]}
+        cases.append({"f": f, "variant": "min", "place": place, "k": 0 if place == "top" else 1,
+                      "end": rng.choice(END_MODES[place]), "natoms": 2, "lens": [1, 2, 3],
+                      "ego": False, "vals": vals})
     # E. `until` whose right operand is temporal (depth 3): seeded sample, short traces
     f1 = formulas_upto(1)
     rhs = [g for g in fs if has_temporal(g)]
